@@ -699,8 +699,13 @@ pub fn run_case(ctx: &mut Ctx, rng: &mut Rng, sock: &str, open: bool, cfg: SCfg,
     if let Some(detail) = pending_control.take() {
         // the same actions without the second hash: if the calls are answered then, the frozen hash was the cause
         let mut ctrl = Ctx::new("control", ctx.seed, false, &format!("{}/control", ctx.dir), None);
-        let gc = Gen { faults_w: false, faults_r: false, crashes: false, lost: false, replay: false, coop: None, other: false, other_depth: 0, hold_first: 0, select_seed: Some(w.select_seed) };
-        run_case(&mut ctrl, rng, sock, open, SCfg { ..w.cfg }, w.acts.clone(), 0, &gc);
+        // the branch `select!` polls first depends on how many RNG draws the runtime has made, which the second hash's
+        // tasks shift: the control is repeated for several select seeds, a hang under any of them exonerates the other hash
+        for k in 0..32u64 {
+            let gc = Gen { faults_w: false, faults_r: false, crashes: false, lost: false, replay: false, coop: None, other: false, other_depth: 0, hold_first: 0, select_seed: Some(w.select_seed.wrapping_add(k)) };
+            run_case(&mut ctrl, rng, sock, open, SCfg { ..w.cfg }, w.acts.clone(), 0, &gc);
+            if ctrl.hangs > 0 { break; }
+        }
         if ctrl.hangs > 0 { ctx.violation("C06", "hang", &detail); }
         else { ctx.violation("C14,C06", "hang:other-hash-frozen", &format!("(answered when the other hash is absent; other hash frozen after {} of its RPCs) {}", w.other_depth, detail)); }
     }
